@@ -144,6 +144,8 @@ pub fn run(lane: &str, args: &[&str]) -> (String, Option<String>) {
                     let want = format!("ok {} rest={}", show_tree(&t), hex(&b[n..]));
                     if want != got { Some(format!("valid definite-length input: independent reader gives {} but lber gives {}", clip(&want), clip(&got))) } else { None }
                 }
+                // deeper than the parser's recursion guard (repair F6, for C11): valid input, refused - known finding F36
+                Own::Ok(t, _) if got != "panic" => if got.starts_with("ok ") { None } else { Some(format!("F36-depth-limit: valid definite-length input nested {} levels deep is refused by the parser's recursion guard", ownber::depth(&t))) },
                 _ => if got == "panic" { Some("parser panicked".to_string()) } else { None },
             };
             (got, oracle)
